@@ -136,6 +136,22 @@ func (r *recorder) CaptureState(env *vm.EVM, pc uint64, op vm.OpCode, gas, cost 
 	r.evs = append(r.evs, e)
 }
 
+// blockTracer: one EVM serves the whole block (as in Process); every message has its own recorder
+type blockTracer struct{ cur *recorder }
+
+func (b *blockTracer) CaptureStart(env *vm.EVM, from common.Address, to common.Address, create bool, input []byte, gas uint64, value *big.Int) {
+	b.cur.CaptureStart(env, from, to, create, input, gas, value)
+}
+func (b *blockTracer) CaptureEnd(output []byte, gasUsed uint64, d time.Duration, err error) {
+	b.cur.CaptureEnd(output, gasUsed, d, err)
+}
+func (b *blockTracer) CaptureFault(env *vm.EVM, pc uint64, op vm.OpCode, gas, cost uint64, scope *vm.ScopeContext, depth int, err error) {
+	b.cur.CaptureFault(env, pc, op, gas, cost, scope, depth, err)
+}
+func (b *blockTracer) CaptureState(env *vm.EVM, pc uint64, op vm.OpCode, gas, cost uint64, scope *vm.ScopeContext, rData []byte, depth int, err error, l common.Location) {
+	b.cur.CaptureState(env, pc, op, gas, cost, scope, rData, depth, err, l)
+}
+
 func relevant(op vm.OpCode) bool {
 	switch op {
 	case vm.CALL, vm.CALLCODE, vm.DELEGATECALL, vm.STATICCALL, vm.CREATE, vm.CREATE2, vm.SELFDESTRUCT, vm.ETX, vm.CONVERT:
@@ -189,10 +205,16 @@ type Obs struct {
 	Trace    []Prim   `json:"trace"`
 }
 
-type Run struct {
-	c        *Case
+// univ: the address universe of a block, shared (append-only) by the runs of its messages so that
+// account numbers mean the same thing in every transaction of the block
+type univ struct {
 	universe []common.InternalAddress
 	index    map[common.InternalAddress]int
+}
+
+type Run struct {
+	c *Case
+	*univ
 	pre      []*big.Int
 	rec      *recorder
 	top      Act
@@ -218,9 +240,13 @@ type Run struct {
 	etxAll    int // len(ExecutionResult.Etxs), every type (TransitionDb dumps EVM.ETXCache into it)
 	etxRealFin []string // balances after the real core.ApplyTransaction (inbound ETX only)
 	etxRealErr string
+	// block shape
+	pool   uint64     // gas left in the block's GasPool when this message was applied
+	prev   []*Run     // the runs of the messages applied before this one in the same block (c.Before)
+	blkPre []*big.Int // balances of the (final) universe at the start of the block
 }
 
-func (r *Run) idx(a common.InternalAddress) int {
+func (r *univ) idx(a common.InternalAddress) int {
 	if i, ok := r.index[a]; ok {
 		return i
 	}
@@ -356,11 +382,17 @@ func accessListOf(c *Case, extra []common.InternalAddress) types.AccessList {
 	return al
 }
 
-// runCase: with access-list enforcement on (production behaviour) the message must name every
-// address it will touch, including contracts it creates; a dry run without enforcement finds them.
+// runCase: with access-list enforcement on (production behaviour) the messages must name every
+// address they will touch, including contracts they create; a dry run of the whole block without
+// enforcement finds them.
 func runCase(c *Case, logger *log.Logger) *Run {
 	if c.Inbound {
 		c.ACL = true // the real core.ApplyTransaction (vm.Config.Debug off) always enforces
+	}
+	for _, b := range c.Before {
+		if b.Inbound {
+			c.ACL = true
+		}
 	}
 	if !c.ACL {
 		return execute(c, nil, logger)
@@ -374,26 +406,87 @@ func runCase(c *Case, logger *log.Logger) *Run {
 	return execute(c, dry.universe, logger)
 }
 
+// materialize: message m of the block described by c as a case of its own (environment and accounts
+// of c, message fields of m)
+func materialize(c *Case, m *Case) *Case {
+	mc := *c
+	mc.Before = nil
+	mc.Note = m.Note
+	mc.Inbound, mc.From, mc.To, mc.Value, mc.Gas, mc.Price = m.Inbound, m.From, m.To, m.Value, m.Gas, m.Price
+	mc.Nonce, mc.RelNonce, mc.Data, mc.Init, mc.ALDrop = m.Nonce, m.RelNonce, m.Data, m.Init, m.ALDrop
+	return &mc
+}
+
+// execute applies the messages c.Before ++ [c] to ONE StateDB through ONE EVM, the way a block is
+// processed: Prepare, EVM.Reset, ApplyMessage, Finalize(true) per message, nothing else in between
+// (no Commit, no reload).  It returns the run of the last message (the case proper); the runs of the
+// earlier ones hang off it (prev) for the block-level model check and monitors.
 func execute(c *Case, extra []common.InternalAddress, logger *log.Logger) (r *Run) {
-	r = &Run{c: c, index: map[common.InternalAddress]int{}, rec: &recorder{}, suicBen: -1}
 	vm.InitializePrecompiles(loc)
 	statedb := newState(c, logger)
-	preState := statedb.Copy()
+	blkState := statedb.Copy()
+	u := &univ{index: map[common.InternalAddress]int{}}
 	// universe: zero address, declared accounts, precompiles 1..9, lockup contract
-	r.idx(common.ZeroInternal(loc))
+	u.idx(common.ZeroInternal(loc))
 	for _, a := range c.Accts {
 		ia, _ := internalOf(addrBytes(a.Addr))
-		r.idx(ia)
+		u.idx(ia)
 	}
 	for i := 1; i <= 10; i++ {
 		b := make([]byte, 20)
 		b[19] = byte(i)
 		ia, _ := internalOf(b)
-		r.idx(ia)
+		u.idx(ia)
 	}
 	bctx := blockCtx(c)
-	r.rentGas = params.CallNewAccountGas(bctx.QuaiStateSize)
+	bt := &blockTracer{}
+	wrapped := &logDB{StateDB: statedb, bypass: !c.ACL}
+	cfg := &params.ChainConfig{ChainID: big.NewInt(1), Location: loc}
+	evm := vm.NewEVM(bctx, vm.TxContext{}, wrapped, cfg, vm.Config{Debug: true, Tracer: bt}, nil)
+	gp := new(types.GasPool).AddGas(c.Pool)
 
+	var msgs []*Case
+	for _, b := range c.Before {
+		msgs = append(msgs, materialize(c, b))
+	}
+	msgs = append(msgs, c)
+	var prev []*Run
+	for i, mc := range msgs {
+		last := i == len(msgs)-1
+		r = &Run{c: mc, univ: u, rec: &recorder{}, suicBen: -1}
+		bt.cur, wrapped.rec = r.rec, r.rec
+		r.pool = gp.Gas()
+		r.rentGas = params.CallNewAccountGas(bctx.QuaiStateSize)
+		// Process: statedb.Prepare(tx.Hash(), i) in front of every transaction (fresh access list); the copy
+		// (used for the pre-balances and for the real core.ApplyTransaction of an inbound ETX) is taken after it
+		statedb.Prepare(common.BytesToHash([]byte{0xc0, 0x02, byte(i + 1)}), i)
+		preState := statedb.Copy()
+		snap := -1
+		if !last {
+			snap = statedb.Snapshot() // worker.commitTransaction: a refused message is rolled back
+		}
+		r.apply(mc, statedb, wrapped, preState, evm, gp, bctx, extra, logger)
+		if r.panicked != "" {
+			return r
+		}
+		if !last && r.obs.Invalid {
+			statedb.RevertToSnapshot(snap)
+			gp = new(types.GasPool).AddGas(r.pool)
+		}
+		if last {
+			r.prev = prev
+			for _, a := range u.universe {
+				r.blkPre = append(r.blkPre, new(big.Int).Set(blkState.GetBalance(a)))
+			}
+		}
+		prev = append(prev, r)
+	}
+	return r
+}
+
+// apply runs one message of the block on the shared state and fills in the run.
+func (r *Run) apply(c *Case, statedb *state.StateDB, wrapped *logDB, preState *state.StateDB, evm *vm.EVM, gp *types.GasPool,
+	bctx vm.BlockContext, extra []common.InternalAddress, logger *log.Logger) {
 	// the message
 	data := dataOf(c)
 	for _, b := range data {
@@ -420,7 +513,7 @@ func execute(c *Case, extra []common.InternalAddress, logger *log.Logger) (r *Ru
 		}
 		sender := common.BytesToAddress(addrBytes("0100000000000000000000000000000000000e7c"), loc)
 		etxTx = types.NewTx(&types.ExternalTx{Value: value, To: toAddr, Sender: sender, EtxType: uint64(types.DefaultType),
-			OriginatingTxHash: common.BytesToHash([]byte{0xc0, 0x02}), ETXIndex: 0, Gas: c.Gas, Data: data, AccessList: al})
+			OriginatingTxHash: common.BytesToHash([]byte{0xc0, 0x02, byte(len(r.prev))}), ETXIndex: 0, Gas: c.Gas, Data: data, AccessList: al})
 		m, err := etxTx.AsMessage(types.NewSigner(big.NewInt(1), loc), bi(c.BaseFee))
 		if err != nil {
 			panic(err)
@@ -430,16 +523,20 @@ func execute(c *Case, extra []common.InternalAddress, logger *log.Logger) (r *Ru
 		r.from = 0
 	} else {
 		from := common.BytesToAddress(addrBytes(c.From), loc)
-		msg = types.NewMessage(from, toAddr, c.Nonce, value, c.Gas, bi(c.Price), data, al, false)
-		r.create = toAddr == nil
 		fi, ok := internalOf(addrBytes(c.From))
 		if !ok {
 			panic("sender not in-zone Quai")
 		}
+		nonce := c.Nonce
+		if c.RelNonce {
+			nonce += statedb.GetNonce(fi)
+		}
+		msg = types.NewMessage(from, toAddr, nonce, value, c.Gas, bi(c.Price), data, al, false)
+		r.create = toAddr == nil
 		r.from = r.idx(fi)
 		// preCheck facts the model takes as opaque: nonce and sender-is-EOA
 		ch := statedb.GetCodeHash(fi)
-		r.preOK = statedb.GetNonce(fi) == c.Nonce && (ch == (common.Hash{}) || ch == crypto.Keccak256Hash(nil))
+		r.preOK = statedb.GetNonce(fi) == nonce && (ch == (common.Hash{}) || ch == crypto.Keccak256Hash(nil))
 	}
 	// kind of message, as TransitionDb classifies it
 	r.kind = "normal"
@@ -457,10 +554,7 @@ func execute(c *Case, extra []common.InternalAddress, logger *log.Logger) (r *Ru
 	}
 
 	// real run
-	wrapped := &logDB{StateDB: statedb, rec: r.rec, bypass: !c.ACL}
-	cfg := &params.ChainConfig{ChainID: big.NewInt(1), Location: loc}
-	evm := vm.NewEVM(bctx, core.NewEVMTxContext(msg), wrapped, cfg, vm.Config{Debug: true, Tracer: r.rec}, nil)
-	gp := new(types.GasPool).AddGas(c.Pool)
+	evm.Reset(core.NewEVMTxContext(msg), wrapped)
 	var prevZero *big.Int
 	if c.Inbound {
 		prevZero = new(big.Int).Set(core.VerifC02PrepareApplyETX(statedb, msg.Value(), loc))
@@ -476,7 +570,7 @@ func execute(c *Case, extra []common.InternalAddress, logger *log.Logger) (r *Ru
 		res, err = core.ApplyMessage(evm, msg, gp)
 	}()
 	if r.panicked != "" {
-		return r
+		return
 	}
 	r.refctr = statedb.GetRefund()
 	if res != nil {
@@ -518,12 +612,11 @@ func execute(c *Case, extra []common.InternalAddress, logger *log.Logger) (r *Ru
 		case evSub, evAdd, evSuicide, evCreate:
 			if _, ok := r.index[e.addr]; !ok {
 				r.idx(e.addr)
-				r.pre = append(r.pre, new(big.Int).Set(preState.GetBalance(e.addr)))
 			}
 		}
 	}
 	r.buildTree(msg, toAddr)
-	// pre-balances of addresses discovered while building the tree
+	// pre-balances of the addresses discovered while running / building the tree
 	for i := len(r.pre); i < len(r.universe); i++ {
 		r.pre = append(r.pre, new(big.Int).Set(preState.GetBalance(r.universe[i])))
 	}
@@ -565,12 +658,12 @@ func execute(c *Case, extra []common.InternalAddress, logger *log.Logger) (r *Ru
 			o.Trace = append(o.Trace, Prim{K: "revert", A: e.id - first})
 		}
 	}
-	// the real ApplyTransaction on a copy of the pre-state (inbound ETX only)
+	// the real ApplyTransaction on a copy of the state in front of this message (inbound ETX only)
 	if c.Inbound {
 		r.realApplyTransaction(preState, etxTx, logger)
 	}
-	return r
 }
+
 
 // ---------- rebuilding the effect tree ----------
 
